@@ -39,12 +39,14 @@ def run(model, res, tier):
     res.rule('R6', 'the column index -> label loop terminates')
     res.rule('R7', 'no cache or shared state')
     res.trusted += ['re._parser', 'hxsa regex automata over representative characters', 'hxsa abstract interpreter']
-    _r1(model, res, m)
-    _r2(model, res, c, m)
-    _r3(model, res, m)
-    _r4(model, res, m)
-    _r5(model, res, m)
-    _r6(model, res, m)
+    # each rule group on its own: a construct one of them cannot follow leaves that one undecided, not the others
+    H.safely(res, 'R1', 'label regex', _r1, model, res, m)
+    H.safely(res, 'R2', 'decomposition', _r2, model, res, c, m)
+    H.safely(res, 'R3', 'column converters', _r3, model, res, m)
+    H.safely(res, 'R4', 'row converters (exactness)', _r4_exact, model, res, m)
+    H.safely(res, 'R4', 'row converters', _r4, model, res, m)
+    H.safely(res, 'R5', 'recomposition', _r5, model, res, m)
+    H.safely(res, 'R6', 'loop', _r6, model, res, m)
     keys = [(m.name, q) for q in m.functions if '.' not in q]
     region = c.cg.reachable(keys)
     purity.check_region(res, c, 'R7', None, region, 'a label helper')
@@ -419,6 +421,34 @@ def _show_lin(d):
     if c != 0 or not parts:
         parts.append(str(c))
     return ' + '.join(parts).replace('+ -', '- ')
+
+
+def _r4_exact(model, res, m):
+    f1 = m.functions.get('row_label_to_index')
+    f2 = m.functions.get('row_index_to_label')
+    if f1 is None or f2 is None:
+        raise AnalysisError('row converters not found (anchor vanished)')
+    # exact integer arithmetic: a row number read or computed through a float is wrong from 2**53 on (the affine forms above are exact
+    # rationals and cannot see that)
+    for fname_, fn_ in (('row_label_to_index', f1), ('row_index_to_label', f2)):
+        nodes, seen_f, todo = [], set(), [fn_]
+        while todo:
+            g_ = todo.pop()
+            if id(g_) in seen_f:
+                continue
+            seen_f.add(id(g_))
+            for n_ in walk_no_defs(g_):
+                nodes.append(n_)
+                if isinstance(n_, ast.Call) and isinstance(n_.func, ast.Name) and n_.func.id in m.functions and n_.func.id not in ('row_label_to_index', 'row_index_to_label'):
+                    todo.append(m.functions[n_.func.id])
+        inexact = [n_ for n_ in nodes if (isinstance(n_, (ast.BinOp, ast.AugAssign)) and isinstance(n_.op, ast.Div)) or
+                   (isinstance(n_, ast.Call) and sa.call_name(n_) in ('float', 'math.log', 'math.pow', 'math.fmod', 'math.log10', 'math.floor', 'math.ceil', 'round')
+                    and sa.call_name(n_) not in ('math.floor', 'math.ceil', 'round'))]
+        res.ob('R4', '%s:%s' % (m.name, fname_), 'row arithmetic is exact integer arithmetic', not inexact, '; '.join(src(n_) for n_ in inexact))
+        if inexact:
+            res.violation('R4', '%s:%s:float-arithmetic' % (m.name, fname_), m.where(inexact[0]),
+                          '%s goes through floating point (%s): row numbers from 2**53 on are not exactly representable, so two different row '
+                          'labels get the same index and decompose / recompose no longer returns the label' % (fname_, src(inexact[0])), func=fname_)
 
 
 def _r4(model, res, m):
